@@ -1,5 +1,5 @@
 (* C06 -- Generated function bodies have sound control flow and define before use.  ONLY property theorems here. *)
-From QV Require Import model.Base model.Lang model.Types model.Tir model.CfgCheck model.Builder model.Passes model.TirCase gen.GenE0 proofs.CfgProofs proofs.BuilderInv proofs.BuilderSafe proofs.BuilderSafeSwitch proofs.BuilderCfg proofs.BuilderOpenCount spec.Typing proofs.ReturnType.
+From QV Require Import model.Base model.Lang model.Types model.Tir model.CfgCheck model.Builder model.Passes model.TirCase gen.GenE0 proofs.CfgProofs proofs.BuilderInv proofs.BuilderSafe proofs.BuilderSafeSwitch proofs.BuilderCfg proofs.BuilderOpenCount spec.Typing proofs.ReturnType proofs.IrTyped proofs.Unreachable.
 Open Scope nat_scope.
 
 (* FULL statement (over ALL programs and class environments): every accepted binding or callback is translated to a
@@ -99,6 +99,33 @@ Example C06_return_type_examples :
   resolve_return_type E (code [blk (TmReturn (OLocal 0 T_INT)); blk (TmReturn OVoid)]) = None /\
   resolve_return_type E (code [blk (TmBr 1); blk (TmReturn OVoid)]) = Some (DConcrete T_VOID).
 Proof. vm_compute. repeat split; reflexivity. Qed.
+
+(* the second clause, second half ("control never runs into the unreachable marker"), for ALL programs: in the code tir::build returns, a block that ends in
+   the unreachable marker is not the entry block and is the target of no jump of any block -- so no path from the entry ends in it.  The translator itself
+   never writes the marker (part of the invariant of proofs/IrTyped.v); the final pass writes it only to blocks no conditional jump targets, and every
+   unconditional jump into such a block is itself replaced by a return or a marker (invariant of the work-list loop, proofs/Unreachable.v). *)
+Theorem C06_unreachable_marker_is_isolated : forall E cb c, bu_code (build_callback E cb) = Some c ->
+  forall i b, nth_error (c_blocks c) i = Some b -> b_term b = Some TmUnreachable ->
+    i <> 0 /\ forall j bj, nth_error (c_blocks c) j = Some bj -> ~ In i (succs bj).
+Proof.
+  intros E cb c H. unfold build_callback, finish in H.
+  pose proof (walk_writes_no_unreachable E cb) as Hno.
+  destruct (walk_callback E cb bstate0) as [[[ok env]| |x] s]; try discriminate H. destruct ok; [|discriminate H]. cbn [snd] in Hno.
+  destruct (finalize_completion_values (bs_blocks s) (List.length (bs_blocks s) - 1)) as [bl|msg|site|] eqn:Ef; try discriminate H.
+  cbn in H. inversion H; subst. cbn [c_blocks]. exact (finalize_unreachable_isolated _ _ _ Ef Hno).
+Qed.
+Print Assumptions C06_unreachable_marker_is_isolated.
+
+Theorem C06_no_path_ends_in_the_unreachable_marker : forall E cb c, bu_code (build_callback E cb) = Some c ->
+  forall p b, path (c_blocks c) p -> nth_error (c_blocks c) (last_block p) = Some b -> b_term b <> Some TmUnreachable.
+Proof.
+  intros E cb c H p b Hp Hb Hu. destruct (C06_unreachable_marker_is_isolated E cb c H _ _ Hb Hu) as [H0 Hpred].
+  inversion Hp as [Hq|q i bi s Hq Hi Hs Heq].
+  - rewrite <- Hq in H0. apply H0. reflexivity.
+  - rewrite <- Heq in Hpred. unfold last_block in Hpred. replace (q ++ [i; s]) with ((q ++ [i]) ++ [s]) in Hpred by (rewrite <- app_assoc; reflexivity).
+    rewrite last_last in Hpred. exact (Hpred i bi Hi Hs).
+Qed.
+Print Assumptions C06_no_path_ends_in_the_unreachable_marker.
 
 (* non-vacuity of the checker: it rejects a body whose reachable block ends in the unreachable marker, one that reads
    an unassigned temporary, and one that jumps out of range *)
